@@ -171,7 +171,7 @@ func TestC02(t *testing.T) {
 		c.Rapid("rand-expr", n, func(rt *rapid.T, s *Sub) {
 			e := c02Expr(rt, rapid.IntRange(1, 5).Draw(rt, "depth"))
 			src := c02Prelude + bn.KwPrint + " " + e + ";\n"
-			c.c02Program(s, "rand-expr", src, true, false)
+			c.c02Program(s, "rand-expr", place(src, drawPlacement(rt)), true, false)
 		})
 	})
 }
